@@ -324,7 +324,7 @@ pub fn run_parent(check: &dyn Check, tier: Tier, seed: u64) -> i32 {
         harness_errors.push(format!("prepare failed: {e}"));
     }
 
-    let nshards = check.nshards(tier);
+    let nshards = std::env::var("VERIF_SHARDS").ok().and_then(|s| s.parse().ok()).unwrap_or_else(|| check.nshards(tier));
     let exe = std::env::current_exe().unwrap();
     let timeout = Duration::from_secs(check.shard_timeout_s(tier));
     let mut children: Vec<(u64, std::process::Child, bool)> = vec![];
